@@ -331,7 +331,9 @@ StylesheetConstructionContextDefault::destroy(StylesheetRoot*   theStylesheetRoo
     {
         m_stylesheets.erase(i);
 
-        delete theStylesheetRoot;
+        // The instance was created with StylesheetRoot::create(),
+        // so it must go back to the memory manager, as in reset().
+        XalanDestroy(getMemoryManager(), *theStylesheetRoot);
     }
 
     if (m_stylesheets.empty() == true)
